@@ -35,6 +35,8 @@ enum Answer {
     Rc2Pow32,
     /// the given result code without the optional responseName
     RcNoName(u32),
+    /// the given result code written with eight leading zero octets (nine content octets)
+    PaddedRc(u32),
 }
 
 #[derive(Clone, Copy, Debug, PartialEq, Eq)]
@@ -63,6 +65,8 @@ struct Case {
     no_timeout: bool,
     /// set_no_tls_verify() is called twice, first with the opposite value
     toggled: bool,
+    /// the TCP connection is opened by the caller and handed over with set_std_stream()
+    pre: bool,
 }
 
 #[derive(Default, Debug, Clone)]
@@ -118,6 +122,18 @@ fn serve(mut tcp: std::net::TcpStream, c: Case, seen: Arc<Mutex<Seen>>) {
                 return;
             }
             Answer::WrongId | Answer::WrongIdThenClose => ok(99, 0),
+            Answer::PaddedRc(rc) => {
+                let m = Msg { id: 1, op: Op::ExtResp(Res::new(0, "", ""), Some(STARTTLS_OID.to_vec()), None), controls: None };
+                let mut t = m.to_tlv();
+                if let ber::Body::Cons(top) = &mut t.body {
+                    if let ber::Body::Cons(op) = &mut top[1].body {
+                        let mut v = vec![0u8; 8];
+                        v.push(rc as u8);
+                        op[0].body = ber::Body::Prim(v);
+                    }
+                }
+                ber::encode(&t)
+            }
             Answer::EmptyRc | Answer::Rc2Pow32 => {
                 let m = Msg { id: 1, op: Op::ExtResp(Res::new(0, "", ""), Some(STARTTLS_OID.to_vec()), None), controls: None };
                 let mut t = m.to_tlv();
@@ -154,7 +170,7 @@ fn serve(mut tcp: std::net::TcpStream, c: Case, seen: Arc<Mutex<Seen>>) {
         }
         // (after the two malformed / out-of-range result codes the server goes on to the handshake
         // as well: a client that took them for success would end up with a working handle)
-        let proceeds = matches!(c.answer, Answer::Rc(0) | Answer::RcNoName(0) | Answer::Rc0PlusForgedFrame | Answer::Rc0PlusForgedPrefix | Answer::NoticeThenRc0 | Answer::EmptyRc | Answer::Rc2Pow32);
+        let proceeds = matches!(c.answer, Answer::Rc(0) | Answer::RcNoName(0) | Answer::PaddedRc(0) | Answer::Rc0PlusForgedFrame | Answer::Rc0PlusForgedPrefix | Answer::NoticeThenRc0 | Answer::EmptyRc | Answer::Rc2Pow32);
         if !proceeds {
             // keep reading: anything the client still sends in cleartext is recorded. Should the
             // client start a TLS handshake all the same, the server plays along (a client that
@@ -250,6 +266,7 @@ fn attempt(c: &Case, port: u16) -> Result<Result<Option<u32>, String>, String> {
     let (starttls, no_verify, cloned, connector) = (!c.ldaps || c.both, c.no_verify, c.cloned, c.connector);
     let ct = if c.no_timeout { None } else { Some(Duration::from_millis(6000)) };
     let toggled = c.toggled;
+    let pre = if c.pre { Some(std::net::TcpStream::connect(("127.0.0.1", port)).map_err(|e| format!("pre-connect: {}", e))) } else { None };
     catch(move || {
         let rt = tokio::runtime::Builder::new_current_thread().enable_all().build().unwrap();
         rt.block_on(async {
@@ -267,6 +284,11 @@ fn attempt(c: &Case, port: u16) -> Result<Result<Option<u32>, String>, String> {
                 None => LdapConnSettings::new().set_starttls(starttls).set_no_tls_verify(no_verify).verif_opt_timeout(ct),
             };
             let settings = if cloned { settings.clone() } else { settings };
+            let settings = match pre {
+                Some(Ok(s)) => settings.set_std_stream(ldap3::StdStream::Tcp(s)),
+                Some(Err(e)) => panic!("verif-machinery: {}", e),
+                None => settings,
+            };
             match LdapConnAsync::with_settings(settings, &url).await {
                 Err(e) => Err(err_kind(&e)),
                 Ok((conn, mut ldap)) => {
@@ -332,7 +354,7 @@ fn judge(rep: &Reporter, c: &Case) -> bool {
         }
         Ok(g) => g,
     };
-    let answer_ok = c.ldaps || matches!(c.answer, Answer::Rc(0) | Answer::RcNoName(0) | Answer::Rc0PlusForgedFrame | Answer::Rc0PlusForgedPrefix | Answer::NoticeThenRc0);
+    let answer_ok = c.ldaps || matches!(c.answer, Answer::Rc(0) | Answer::RcNoName(0) | Answer::PaddedRc(0) | Answer::Rc0PlusForgedFrame | Answer::Rc0PlusForgedPrefix | Answer::NoticeThenRc0);
     let should_succeed = answer_ok && c.hs == Handshake::Normal && (verification_off(c) || trusted_for(c.cert, c.host));
     let bad = |key: &str, why: String| {
         rep.violation(&format!("tls:{}", key), &format!("{:?}: {} (outcome {:?}, server saw {:?})", c, why, got, seen), replay.clone());
@@ -422,6 +444,10 @@ pub fn run(tier: Tier) -> i32 {
         Answer::RcNoName(0),
         Answer::RcNoName(2),
         Answer::RcNoName(80),
+        Answer::Rc(10),
+        Answer::Rc(14),
+        Answer::PaddedRc(0),
+        Answer::PaddedRc(53),
     ];
     for ldaps in [true, false] {
         for host in ["localhost", "127.0.0.1"] {
@@ -435,8 +461,8 @@ pub fn run(tier: Tier) -> i32 {
                             if answer == Answer::WrongId && !(cert == "good" && hs == Handshake::Normal) {
                                 continue;
                             }
-                            cases.push(Case { ldaps, host, no_verify, cert, answer, hs, cloned: false, both: false, connector: None, no_timeout: false, toggled: false });
-                            cases.push(Case { ldaps, host, no_verify, cert, answer, hs, cloned: true, both: false, connector: None, no_timeout: false, toggled: false });
+                            cases.push(Case { ldaps, host, no_verify, cert, answer, hs, cloned: false, both: false, connector: None, no_timeout: false, toggled: false, pre: false });
+                            cases.push(Case { ldaps, host, no_verify, cert, answer, hs, cloned: true, both: false, connector: None, no_timeout: false, toggled: false, pre: false });
                         }
                     }
                 }
@@ -447,7 +473,7 @@ pub fn run(tier: Tier) -> i32 {
     if tier == Tier::Thorough {
         for rc in (1u32..=123).chain([4096, 65535]) {
             for no_verify in [false, true] {
-                cases.push(Case { ldaps: false, host: "localhost", no_verify, cert: "good", answer: Answer::Rc(rc), hs: Handshake::Normal, cloned: false, both: false, connector: None, no_timeout: false, toggled: false });
+                cases.push(Case { ldaps: false, host: "localhost", no_verify, cert: "good", answer: Answer::Rc(rc), hs: Handshake::Normal, cloned: false, both: false, connector: None, no_timeout: false, toggled: false, pre: false });
             }
         }
     }
@@ -467,7 +493,17 @@ pub fn run(tier: Tier) -> i32 {
             (true, Answer::Rc(0), Handshake::Garbage),
             (true, Answer::Rc(0), Handshake::Normal),
         ] {
-            cases.push(Case { ldaps, host: "localhost", no_verify, cert: "good", answer, hs, cloned: false, both: false, connector: None, no_timeout: true, toggled: false });
+            cases.push(Case { ldaps, host: "localhost", no_verify, cert: "good", answer, hs, cloned: false, both: false, connector: None, no_timeout: true, toggled: false, pre: false });
+        }
+    }
+    // the TCP connection opened by the caller (set_std_stream): StartTLS / ldaps apply all the same
+    for ldaps in [true, false] {
+        for cert in ["good", "wrongname"] {
+            for answer in if ldaps { vec![Answer::Rc(0)] } else { vec![Answer::Rc(0), Answer::Rc(2), Answer::Rc0PlusForgedFrame] } {
+                for no_verify in [false, true] {
+                    cases.push(Case { ldaps, host: "localhost", no_verify, cert, answer, hs: Handshake::Normal, cloned: false, both: false, connector: None, no_timeout: false, toggled: false, pre: true });
+                }
+            }
         }
     }
     // the verification setting given twice: the last call counts
@@ -475,7 +511,7 @@ pub fn run(tier: Tier) -> i32 {
         for no_verify in [false, true] {
             for cert in ["good", "wrongname", "selfsigned"] {
                 for cloned in [false, true] {
-                    cases.push(Case { ldaps, host: "localhost", no_verify, cert, answer: Answer::Rc(0), hs: Handshake::Normal, cloned, both: false, connector: None, no_timeout: false, toggled: true });
+                    cases.push(Case { ldaps, host: "localhost", no_verify, cert, answer: Answer::Rc(0), hs: Handshake::Normal, cloned, both: false, connector: None, no_timeout: false, toggled: true, pre: false });
                 }
             }
         }
@@ -483,7 +519,7 @@ pub fn run(tier: Tier) -> i32 {
     // an ldaps URL with StartTLS switched on as well
     for cert in ["good", "wrongname"] {
         for cloned in [false, true] {
-            cases.push(Case { ldaps: true, host: "localhost", no_verify: false, cert, answer: Answer::Rc(0), hs: Handshake::Normal, cloned, both: true, connector: None, no_timeout: false, toggled: false });
+            cases.push(Case { ldaps: true, host: "localhost", no_verify: false, cert, answer: Answer::Rc(0), hs: Handshake::Normal, cloned, both: true, connector: None, no_timeout: false, toggled: false, pre: false });
         }
     }
     // a caller-supplied connector, set before or after the other settings: StartTLS, the refusal
@@ -494,7 +530,7 @@ pub fn run(tier: Tier) -> i32 {
                 let answers: Vec<Answer> = if ldaps { vec![Answer::Rc(0)] } else { vec![Answer::Rc(0), Answer::Rc(2), Answer::Rc0PlusForgedFrame] };
                 for answer in answers {
                     for cloned in [false, true] {
-                        cases.push(Case { ldaps, host: "localhost", no_verify: false, cert, answer, hs: Handshake::Normal, cloned, both: false, connector: Some(connector), no_timeout: false, toggled: false });
+                        cases.push(Case { ldaps, host: "localhost", no_verify: false, cert, answer, hs: Handshake::Normal, cloned, both: false, connector: Some(connector), no_timeout: false, toggled: false, pre: false });
                     }
                 }
             }
@@ -505,10 +541,10 @@ pub fn run(tier: Tier) -> i32 {
     for ldaps in [true, false] {
         for cert in certs {
             for no_verify in [false, true] {
-                hostless.push(Case { ldaps, host: "", no_verify, cert, answer: Answer::Rc(0), hs: Handshake::Normal, cloned: false, both: false, connector: None, no_timeout: false, toggled: false });
+                hostless.push(Case { ldaps, host: "", no_verify, cert, answer: Answer::Rc(0), hs: Handshake::Normal, cloned: false, both: false, connector: None, no_timeout: false, toggled: false, pre: false });
             }
         }
-        hostless.push(Case { ldaps, host: "", no_verify: false, cert: "good", answer: if ldaps { Answer::Rc(0) } else { Answer::Rc(2) }, hs: if ldaps { Handshake::Garbage } else { Handshake::Normal }, cloned: false, both: false, connector: None, no_timeout: false, toggled: false });
+        hostless.push(Case { ldaps, host: "", no_verify: false, cert: "good", answer: if ldaps { Answer::Rc(0) } else { Answer::Rc(2) }, hs: if ldaps { Handshake::Garbage } else { Handshake::Normal }, cloned: false, both: false, connector: None, no_timeout: false, toggled: false, pre: false });
     }
     let mut hostless_run = 0usize;
     {
@@ -539,11 +575,11 @@ pub fn run(tier: Tier) -> i32 {
             });
         }
     });
-    let succeed = cases.iter().chain(hostless.iter().take(hostless_run)).filter(|c| (c.ldaps || matches!(c.answer, Answer::Rc(0) | Answer::RcNoName(0) | Answer::Rc0PlusForgedFrame | Answer::Rc0PlusForgedPrefix | Answer::NoticeThenRc0)) && c.hs == Handshake::Normal && (verification_off(c) || trusted_for(c.cert, c.host))).count();
+    let succeed = cases.iter().chain(hostless.iter().take(hostless_run)).filter(|c| (c.ldaps || matches!(c.answer, Answer::Rc(0) | Answer::RcNoName(0) | Answer::PaddedRc(0) | Answer::Rc0PlusForgedFrame | Answer::Rc0PlusForgedPrefix | Answer::NoticeThenRc0)) && c.hs == Handshake::Normal && (verification_off(c) || trusted_for(c.cert, c.host))).count();
     let c = cov(vec![
         ("evaluations", json!(total)),
         ("distinct_nontrivial", json!(total)),
-        ("rule", json!("product of {ldaps, ldap+StartTLS} x URL host {localhost, 127.0.0.1} x no_tls_verify x certificate {CA-signed for localhost+127.0.0.1, CA-signed for localhost only, CA-signed for another name, self-signed} x StartTLS answer {rc 0, rc 1/2/52/53/80, garbage, close, rc 0 + complete forged cleartext BindResponse, rc 0 + forged frame prefix completed by the genuine in-TLS answer, success under a wrong message ID (also followed by a hang-up), an unsolicited notification before the genuine success, a result code without content octets, result code 2^32, rc 0/2/80 without the responseName} x handshake {normal, close, garbage} (the wrong-ID answer with one certificate; thorough: every result code 1..=123, 4096, 65535); plus the failure behaviours without any connection timeout, set_no_tls_verify() called twice with opposite values, ldaps with StartTLS also switched on, a caller-supplied connector (verifying / accepting anything) set before or after the other settings, and URLs without a host (localhost at 636/389, all four certificates x verification); every case runs the real LdapConnAsync::with_settings against a TLS server on 127.0.0.1 built with native-tls and the test PKI; each case is distinct")),
+        ("rule", json!("product of {ldaps, ldap+StartTLS} x URL host {localhost, 127.0.0.1} x no_tls_verify x certificate {CA-signed for localhost+127.0.0.1, CA-signed for localhost only, CA-signed for another name, self-signed} x StartTLS answer {rc 0, rc 1/2/52/53/80, garbage, close, rc 0 + complete forged cleartext BindResponse, rc 0 + forged frame prefix completed by the genuine in-TLS answer, success under a wrong message ID (also followed by a hang-up), an unsolicited notification before the genuine success, a result code without content octets, result code 2^32, rc 0/2/80 without the responseName} x handshake {normal, close, garbage} (the wrong-ID answer with one certificate; thorough: every result code 1..=123, 4096, 65535); plus the failure behaviours without any connection timeout, set_no_tls_verify() called twice with opposite values, a TCP connection opened by the caller (set_std_stream), ldaps with StartTLS also switched on, a caller-supplied connector (verifying / accepting anything) set before or after the other settings, and URLs without a host (localhost at 636/389, all four certificates x verification); every case runs the real LdapConnAsync::with_settings against a TLS server on 127.0.0.1 built with native-tls and the test PKI; each case is distinct")),
         ("hostless_url_cases_run", json!(hostless_run)),
         ("hostless_url_cases_skipped_port_not_bindable", json!(hostless_skipped)),
         ("cases_that_must_succeed", json!(succeed)),
